@@ -1,7 +1,7 @@
 (* Entry points evaluated by the correspondence harness (harness/c06.py, c07.py, c20.py). *)
 From Coq Require Import NArith List Bool String.
 From Verif Require Import Base.Chars Base.Show
-     AutoImp.World AutoImp.Needs AutoImp.TryImport AutoImp.AutoImport AutoImp.Inv.
+     AutoImp.World AutoImp.Needs AutoImp.TryImport AutoImp.AutoImport AutoImp.Inv AutoImp.FinderEffects.
 Import ListNotations.
 Open Scope string_scope.
 
@@ -90,3 +90,14 @@ Definition run_needs (nss0 : list ns) (loaded0 : list (dotted * obj)) (attrs0 : 
   show_obj [("needs", show_bool b); ("trace", show_list show_effect t);
             ("registered", show_bool (forallb (fun e => match e with GetAttr o _ =>
                                      existsb (fun kv => obj_eqb (snd kv) o) loaded0 end) t))].
+
+(* C20: a whole analysis = the thinnest client asking the captured questions in order *)
+Definition run_finder (loaded0 : list (dotted * obj)) (attrs0 : list ((obj * name) * obj))
+                      (qs : list question) : string :=
+  match analyse loaded0 attrs0 (finder_client qs) with
+  | (answers, tr, asked) =>
+      show_obj [("answers", show_list show_bool answers); ("trace", show_list show_effect tr);
+                ("asked", show_list (fun q => show_dotted (snd q)) asked);
+                ("registered", show_bool (forallb (fun e => match e with GetAttr o _ =>
+                                          existsb (fun kv => obj_eqb (snd kv) o) loaded0 end) tr))]
+  end.
